@@ -7,10 +7,13 @@ D=/verif/seeded/$ID
 mkdir -p $D
 cp $WT/_seed/patch.diff $D/patch.diff; cp $WT/_seed/demo.py $D/demo.py; cp $WT/_seed/notes.md $D/notes.md 2>/dev/null
 cd $WT
+# the worktree is rebuilt from the recorded patch (git stash is shared between worktrees, so it is not used here)
+git checkout -q -- . ; if ! git apply _seed/patch.diff; then echo "PATCH DOES NOT APPLY IN ITS OWN WORKTREE"; exit 8; fi
+echo "== files changed: $(git status --short | grep -v _seed | tr '\n' ' ')"
 echo "== demo with change"; /venv/bin/python _seed/demo.py > /tmp/demo_with.txt 2>&1; W=$?; tail -2 /tmp/demo_with.txt
-git stash -q
+git apply -R _seed/patch.diff
 echo "== demo without change"; /venv/bin/python _seed/demo.py > /tmp/demo_without.txt 2>&1; WO=$?; tail -1 /tmp/demo_without.txt
-git stash pop -q
+git apply _seed/patch.diff
 echo "== tests with change"; T=$(/venv/bin/python -m pytest -q -p no:cacheprovider --timeout=900 tests/ 2>&1 | tail -1); echo "$T"
 echo "demo_with_exit=$W demo_without_exit=$WO tests='$T'" > $D/confirm.txt
 cd /repo
